@@ -375,6 +375,13 @@ func (r *run) verifyRoot(n *Node, h uint32, fs *flatState) {
 			r.out.Probes["c03_absent_keys"]++
 		}
 	}
+	// (5, before the invocations) the same questions through the RPC server's handlers
+	if r.tape.Chance(1, 2) {
+		r.verifyRootRPC(n, h, root, fs)
+		if r.fail != nil {
+			return
+		}
+	}
 	// (4) historic invocation on every node that keeps state history: archival nodes, and garbage-collecting
 	// nodes for the heights they still retain
 	if !n.Local.KeepLatest && h < n.BC.BlockHeight() && len(fs.battery) > 0 {
